@@ -689,8 +689,8 @@ def run(ctx: core.Ctx):
     self_test()
     try:
         # stratified by field type (deterministic shares, everything else drawn by Hypothesis)
-        for i, (ftype, nq, nt) in enumerate([('affine', 50, 800), ('uniform', 35, 550), ('arbitrary', 15, 250),
-                                             ('zero', 10, 200)]):
+        for i, (ftype, nq, nt) in enumerate([('affine', 50, 600), ('uniform', 35, 450), ('arbitrary', 15, 200),
+                                             ('zero', 10, 150)]):
             core.run_given(ctx, weather_case(ftype), lambda c: body(ctx, c), ctx.n(nq, nt), salt=10 * i)
     finally:
         core.reset_config()
